@@ -968,7 +968,7 @@ def tabulate_local(code, local, src, scopes=(), domain=range(256), env=None, mor
     return out
 
 
-def tabulate(code, var, src, scopes=(), domain=range(256), is_expr=True, env=None):
+def tabulate(code, var, src, scopes=(), domain=range(256), is_expr=True, env=None, lenient=False):
     """{v: rsx.Outcome} of running `code` (an expression, or the inside of a block) with `var` bound to each v of domain;
     fns and consts are looked up in scopes (innermost first) and src.  Raises ValueError when a decision depends on
     something that cannot be evaluated."""
@@ -977,7 +977,7 @@ def tabulate(code, var, src, scopes=(), domain=range(256), is_expr=True, env=Non
         e = dict(env or {})
         e[var] = v
         try:
-            out[v] = rsx.run(_self_module(), code, e, src, scopes=list(scopes), is_expr=is_expr)
+            out[v] = rsx.run(_self_module(), code, e, src, scopes=list(scopes), is_expr=is_expr, lenient=lenient)
         except rsx.Unknown as ex:
             raise ValueError("cannot evaluate for %s = %r: %s" % (var, v, ex))
     return out
@@ -1195,7 +1195,7 @@ def inline_calls(body, src, depth=3, exclude=()):
     expressions (simple arguments only: identifiers, `&x`, `&mut x`, `self.f`, literals).  A trailing `Ok(())` / `Ok(value)` /
     `value` of the helper becomes nothing / the let's initialiser.  Followed `depth` levels (a simple chain of helpers)."""
     helpers = set(private_fns(src)) - set(exclude)
-    for _ in range(depth):
+    for _ in range(100 * depth):                 # one call is replaced per round
         progressed = False
         for name in sorted(helpers):
             for (a, b, args) in call_sites(body, name):
@@ -1203,9 +1203,11 @@ def inline_calls(body, src, depth=3, exclude=()):
                 lead = body[:a]
                 mlet = re.search(r"\blet\s+((?:mut\s+)?\w+)\s*(?::\s*[^=;]+?)?=\s*$", lead)
                 at_stmt_start = bool(re.search(r"(?:^|[;{}])\s*$", lead))
-                if not stmt or not (at_stmt_start or mlet):
+                # `pattern => helper(..)?,` : the call is the whole expression of a match arm
+                arm = re.match(r"\s*(\?)?\s*(?=[,}])", body[b:]) if re.search(r"=>\s*$", lead) else None
+                if not (stmt and (at_stmt_start or mlet)) and not arm:
                     continue
-                if not all(re.fullmatch(r"(?:&\s*(?:mut\s+)?)?(?:\*\s*)?[\w.]+(?:\(\))?|" + BYTE, x) for x in args):
+                if not all(re.fullmatch(r'(?:&\s*(?:mut\s+)?)?(?:\*\s*)?[\w.]+(?:\(\))?|"(?:\\.|[^"\\])*"|' + BYTE, x) for x in args):
                     continue
                 try:
                     params = fn_params(src, name)
@@ -1225,9 +1227,14 @@ def inline_calls(body, src, depth=3, exclude=()):
                 value = None
                 if not tail.endswith(";") and not re.match(r"(if|match|for|while|loop)\b", tail):
                     mo = re.fullmatch(r"Ok\(\s*(.*)\s*\)", tail, flags=re.S)
-                    value = (mo.group(1) if (mo and stmt.group(1)) else tail).strip()
+                    value = (mo.group(1) if (mo and (stmt or arm).group(1)) else tail).strip()
                 else:
                     head, value = text, None
+                if arm and not (stmt and at_stmt_start):
+                    blk = head + ("" if value in (None, "", "()") else value)
+                    body = body[:a] + "{" + blk + "}" + body[b + arm.end():]
+                    progressed = True
+                    break
                 if mlet:
                     if value in (None, "", "()"):
                         continue
@@ -1304,6 +1311,32 @@ def accepted_upto(src, name, bound, scopes=()):
     if got != [True, True, False]:
         raise ValueError("%s does not accept exactly the values up to %d: %r" % (name, bound, got))
     return bound
+
+
+def none_values(body):
+    """the expressions a computation falls back to when an Option is None, however that is written: `None => X` / `None => v = X`
+    (match arm), `.unwrap_or(X)`, `.unwrap_or_else(|| X)`, `.map_or(X, f)`, `.map_or_else(|| X, f)`, `else { X }` of an
+    `if let Some(..)` — normalised texts"""
+    out = []
+    for m in re.finditer(r"\bNone\s*=>\s*(?:\{\s*)?(?:\w+\s*=\s*)?([^,;{}]+)", body):
+        out.append(norm_text(m.group(1)))
+    for m in re.finditer(r"\.(unwrap_or|unwrap_or_else|map_or|map_or_else)\s*\(", body):
+        o = m.end() - 1
+        args = split_top(body[o + 1:close_of(body, o)], ",")
+        if args:
+            out.append(norm_text(re.sub(r"^(?:move\s+)?\|\s*\|\s*", "", args[0])))
+    for m in re.finditer(r"\bif\s+let\s+Some\(", body):
+        try:
+            arms, _, _ = _if_let_arms(body, m.start())
+            if len(arms) == 2:
+                out.append(norm_text(re.sub(r"^\w+\s*=\s*", "", arms[1].expr.rstrip(";"))))
+        except (KeyError, IndexError, AttributeError):
+            pass
+    return out
+
+
+def norm_text(t):
+    return re.sub(r"\s+", " ", strip_block(strip_parens(t.strip()))).strip()
 
 
 def none_error(body):
@@ -1498,6 +1531,300 @@ def guard_values(cond, path, src, scopes=(), domain=range(256)):
     return eval_set(expr, v, src, scopes=scopes, domain=domain)
 
 
+# ---- named constants (DESIGN.md §13 round 3) --------------------------------------------------------------------------------
+
+def _const_defs(text):
+    """[(name, start of the item, end (after `;`), initialiser text, (scope start, scope end))] of every `const` / `static`
+    NAME: T = init; in text — file level, impl level (scope: the file) or local to a block (scope: that block)"""
+    out = []
+    for m in re.finditer(r"\b(?:const|static)\s+(?:mut\s+)?([A-Z][A-Z0-9_]*)\s*:", text):
+        if skip_inside_literal_fast(text, m.start()):
+            continue
+        # the type ends at the top-level `=`
+        i, depth, n = m.end(), 0, len(text)
+        while i < n:
+            k = skip_literal(text, i)
+            if k is not None:
+                i = k
+                continue
+            c = text[i]
+            if c in "([{<":
+                depth += 1
+            elif c in ")]}>" and not (c == ">" and text[i - 1] in "-="):
+                depth -= 1
+            elif c == "=" and depth <= 0 and text[i + 1] != "=":
+                break
+            elif c == ";" and depth <= 0:
+                i = -1
+                break
+            i += 1
+        if i < 0 or i >= n:
+            continue
+        j, depth = i + 1, 0
+        while j < n:
+            k = skip_literal(text, j)
+            if k is not None:
+                j = k
+                continue
+            if text[j] in OPEN:
+                depth += 1
+            elif text[j] in CLOSE:
+                depth -= 1
+            elif text[j] == ";" and depth == 0:
+                break
+            j += 1
+        init = text[i + 1:j].strip()
+        a, b = enclosing_block(text, m.start())
+        if (a, b) != (0, len(text)):
+            head = text[max(0, a - 300):a - 1]
+            head = head[max(head.rfind(";"), head.rfind("}")) + 1:]
+            if re.search(r"\b(impl|trait|mod)\b", head) and not re.search(r"\bfn\b", head):
+                a, b = 0, len(text)
+        out.append((m.group(1), m.start(), j + 1, init, (a, b)))
+    return out
+
+
+_LIT_POS_CACHE = {}
+
+
+def skip_inside_literal_fast(text, pos):
+    """is pos inside a string / char literal? (the literal spans of a text are computed once)"""
+    key = id(text), len(text)
+    spans = _LIT_POS_CACHE.get(key)
+    if spans is None or spans[0] is not text:
+        sp, i, n = [], 0, len(text)
+        while i < n:
+            k = skip_literal(text, i)
+            if k is not None:
+                sp.append((i, k))
+                i = k
+            else:
+                i += 1
+        spans = (text, sp)
+        _LIT_POS_CACHE.clear()
+        _LIT_POS_CACHE[key] = spans
+    for a, b in spans[1]:
+        if a < pos < b:
+            return True
+        if a > pos:
+            break
+    return False
+
+
+def _render_const(init, src):
+    """the canonical literal text of a constant's initialiser, or None when it is not a compile-time literal we understand:
+    integers (any arithmetic on literals / other resolved constants, `X.len()`, `size_of::<T>()`, casts, indexing and slicing of
+    byte constants) -> decimal; byte strings -> the string literal if the initialiser is one, else `[d, d, …]`; tables made of
+    literals only (`&[("BPC", "BitsPerComponent"), …]`) -> their text"""
+    e = init.strip()
+    try:
+        o = rsx.run(_self_module(), e, {}, src, is_expr=True, depth=2)
+        v = o.value if o.how == "value" and not o.effects else None
+    except (rsx.Unknown, rsx.Leave, KeyError, ValueError, IndexError, RecursionError):
+        v = None
+    if isinstance(v, bool):
+        return "true" if v else "false"
+    if isinstance(v, int):
+        return str(v)
+    if isinstance(v, tuple) and v and v[0] == "Bytes":
+        core = re.sub(r"^[&*]\s*", "", e).strip()
+        if re.fullmatch(r'b?"(?:\\.|[^"\\])*"', core, flags=re.S):
+            return core
+        return "[" + ", ".join(str(x) for x in v[1]) + "]"
+    # a table of literals: nothing but literals, brackets, commas, `&`
+    rest, i, out = e, 0, []
+    while i < len(rest):
+        k = skip_literal(rest, i)
+        if k is not None:
+            i = k
+            continue
+        out.append(rest[i])
+        i += 1
+    if re.fullmatch(r"(?:[\s&\[\](),;]|" + BYTE + r"|true|false)*", "".join(out)) and re.search(r"[\[(]", e):
+        return e
+    return None
+
+
+def literal_spans(text):
+    out, i, n = [], 0, len(text)
+    while i < n:
+        k = skip_literal(text, i)
+        if k is not None:
+            out.append((i, k))
+            i = k
+        else:
+            i += 1
+    return out
+
+
+def propagate_consts(text):
+    """Every use of a named constant whose value is a compile-time literal is replaced by that literal (scope-aware: a constant
+    local to a fn body is replaced in that body only and shadows an outer one; `Self::NAME` / `Type::NAME` are uses too;
+    constants that depend on other constants are resolved in rounds).  The definitions stay where they are (with the
+    constants inside THEM resolved).  After this, a magic value and the same value hoisted into a `const` are the same text."""
+    defs = _const_defs(text)
+    if not defs:
+        return text
+    value = {}                                            # index of def -> literal text
+    length = {}                                           # index of def -> number of bytes (byte constants)
+
+    def visible(i, pos):
+        a, b = defs[i][4]
+        return a <= pos < b
+
+    def lookup(name, pos):
+        """the innermost definition of `name` visible at pos"""
+        best = None
+        for i, d in enumerate(defs):
+            if d[0] == name and visible(i, pos) and (best is None or (d[4][1] - d[4][0]) < (defs[best][4][1] - defs[best][4][0])):
+                best = i
+        return best
+    names = sorted(set(d[0] for d in defs), key=len, reverse=True)
+    name_rx = re.compile(r"(?<![\w])(?:(?:Self|[A-Z]\w*)\s*::\s*)?(" + "|".join(re.escape(n) for n in names) + r")(?!\w)")
+
+    def substitute(fragment, base, skip_def=None):
+        """fragment = text[base:…]: uses of resolved constants replaced"""
+        spans = literal_spans(fragment)
+        out, last, si = [], 0, 0
+        for m in name_rx.finditer(fragment):
+            while si < len(spans) and spans[si][1] <= m.start():
+                si += 1
+            if si < len(spans) and spans[si][0] < m.start() + 1 <= spans[si][1] and spans[si][0] <= m.start():
+                continue
+            i = lookup(m.group(1), base + m.start(1))
+            if i is None or i not in value:
+                continue
+            pos = base + m.start(1)
+            if defs[i][1] <= pos < defs[i][1] + (defs[i][2] - defs[i][1]) and re.match(r"(?:const|static)\s+(?:mut\s+)?" + m.group(1) + r"\s*:", text[defs[i][1]:]) \
+                    and pos < defs[i][1] + text[defs[i][1]:].index(":"):
+                continue                                  # the name in its own definition
+            before = fragment[:m.start()].rstrip()
+            after = fragment[m.end():]
+            if before.endswith(".") and not before.endswith(".."):
+                continue                                  # a field / method of that name
+            if re.match(r"\s*(::|!\s*[\(\[{]|\()", after):
+                continue                                  # a path segment, a macro, a call
+            if re.match(r"\s*:(?!:)", after) and (before.endswith("{") or before.endswith(",")) and m.group(0) == m.group(1):
+                continue                                  # a field label
+            if before.endswith("::") and m.group(0) == m.group(1):
+                continue
+            out.append(fragment[last:m.start()])
+            ml = re.match(r"\s*\.\s*len\(\)", after)
+            if ml and i in length:
+                out.append(str(length[i]))
+                last = m.end() + ml.end()
+            else:
+                out.append(value[i])
+                last = m.end()
+        out.append(fragment[last:])
+        return "".join(out)
+    for _ in range(6):
+        progressed = False
+        for i, (name, start, end, init, scope) in enumerate(defs):
+            if i in value:
+                continue
+            init_at = text.index(init, start) if init else start
+            resolved = substitute(init, init_at)
+            if name_rx.search(re.sub(r'"(?:\\.|[^"\\])*"', '""', resolved)) and \
+                    any(lookup(mm.group(1), init_at) is not None for mm in name_rx.finditer(re.sub(r'"(?:\\.|[^"\\])*"', '""', resolved))):
+                continue                                  # still depends on an unresolved constant
+            lit = _render_const(resolved, text)
+            if lit is not None:
+                value[i] = lit
+                try:
+                    length[i] = len(byte_string(lit))        # NAME.len() of a byte constant is a number too
+                except (ValueError, KeyError, IndexError):
+                    pass
+                progressed = True
+        if not progressed:
+            break
+    if not value:
+        return text
+    return substitute(text, 0)
+
+
+def join_chains(text):
+    """rustfmt breaks method chains over lines (`dict\n    .get("X")\n    .map(..)`): the line breaks in front of `.name` are
+    removed (outside literals), so that a chain reads the same however it is laid out"""
+    spans = literal_spans(text)
+    out, last, si = [], 0, 0
+    for m in re.finditer(r"\s*\n\s*\.(?=[A-Za-z_])", text):
+        while si < len(spans) and spans[si][1] <= m.start():
+            si += 1
+        if si < len(spans) and spans[si][0] < m.end() and m.start() < spans[si][1]:
+            continue
+        out.append(text[last:m.start()])
+        out.append(".")
+        last = m.end()
+    out.append(text[last:])
+    text = "".join(out)
+    # … and arguments over lines: no white-space after an opening / before a closing parenthesis or bracket, no trailing comma
+    spans = literal_spans(text)
+    out, last, si = [], 0, 0
+    for m in re.finditer(r"(?<=[(\[])\s+|\s*,?\s+(?=[)\]])|,(?=[)\]])", text):
+        while si < len(spans) and spans[si][1] <= m.start():
+            si += 1
+        if si < len(spans) and spans[si][0] < m.end() and m.start() < spans[si][1]:
+            continue
+        out.append(text[last:m.start()])
+        last = m.end()
+    out.append(text[last:])
+    return "".join(out)
+
+
+def fold_literals(text):
+    """`32 - 1`, `16 + 5`, `8 * 4` between decimal literals -> the number, where that cannot change the meaning: the left literal
+    starts an operand position (after `( [ , = < > { ; : ..`, `return`, `=>`), `+ -` only when no `* / %` follows, nothing
+    method-like follows.  (After constant propagation `PADDING.len() - 1` is `32 - 1`; a reader that wants the literal must
+    see 31.)"""
+    spans = literal_spans(text)
+
+    def inside(pos):
+        for a, b in spans:
+            if a <= pos < b:
+                return True
+            if a > pos:
+                return False
+        return False
+    rx = re.compile(r"(?:(?<=[(\[,=<>{;:])|(?<=\.\.)|(?<==>)|(?<=\breturn))(\s*)(\d+)\s*([-+*])\s*(\d+)(?![\w.]|\s*[*/%]|\s+as\b)")
+    for _ in range(8):
+        changed = False
+        out, last = [], 0
+        for m in rx.finditer(text):
+            if inside(m.start(2)) or m.start() < last:
+                continue
+            a, op, b = int(m.group(2)), m.group(3), int(m.group(4))
+            if op == "-" and a < b:
+                continue
+            if op == "*" and re.match(r"\s*[-+]", text[m.end():]) is None and False:
+                continue
+            v = a + b if op == "+" else a - b if op == "-" else a * b
+            out.append(text[last:m.start()])
+            out.append(m.group(1) + str(v))
+            last = m.end()
+            changed = True
+        out.append(text[last:])
+        text = "".join(out)
+        if not changed:
+            break
+        spans = literal_spans(text)
+    return text
+
+
+_SOURCE_CACHE = {}
+
+
+def source(rel, fold=True):
+    """the text the extractors read: comments stripped, method chains / argument lists joined, named constants propagated and
+    (fold=True) arithmetic between literals folded.  fold=False for the few readers that want a formula's own constants"""
+    key = (rel, fold)
+    if key not in _SOURCE_CACHE:
+        base = propagate_consts(join_chains(strip_comments(read(rel))))
+        _SOURCE_CACHE[(rel, False)] = base
+        _SOURCE_CACHE[(rel, True)] = fold_literals(base)
+    return _SOURCE_CACHE[key]
+
+
 class Gen:
     def __init__(self):
         self.defs = []      # (name, coq type, coq term, anchor)
@@ -1538,7 +1865,7 @@ def ctuples(xs):
 
 def main():
     g = Gen()
-    enc = strip_comments(read("pdf/src/enc.rs"))
+    enc = source("pdf/src/enc.rs")
 
     # ---- enc.rs ------------------------------------------------------------
     def nibble():
@@ -1596,15 +1923,24 @@ def main():
 
     def rle():
         b = fn_body(enc, "run_length_decode")
-        lt = re.search(r"\bif\s+(\w+)\s*<\s*(" + BYTE + r")\s*\{", b)
-        v = lt.group(1)                                    # the length byte, whatever it is called
-        ge = re.search(r"else\s+if\s+" + v + r"\s*>=\s*(" + BYTE + r")\s*\{", b)
+        # the loop body is RUN for every value of the length byte (an if / else-if chain and a match on ranges are the same
+        # table): literal copy (extend_from_slice) below L, repeated byte (repeat / resize) from R, the rest ends the data
+        wl = re.search(r"\bwhile\b[^{]*\{", b)
+        loop = item_body(b[wl.start():], r"\{", "loop over the runs")
+        lm = re.search(r"let\s+(\w+)\s*(?::\s*u8)?\s*=\s*\*?\w+\[\s*\w+\s*\]\s*;", loop)
+        v = lm.group(1)
+        t = tabulate_local(loop, v, enc, scopes=[b])
+        lit = set(k for k, o in t.items() if o.how == "value" and any("extend_from_slice" in e for e in o.effects))
+        rep = set(k for k, o in t.items() if o.how == "value" and k not in lit and any(re.search(r"\brepeat\(|\.resize\(", e) for e in o.effects))
+        eod = set(k for k, o in t.items() if o.how == "break" and not o.effects)
+        if lit != set(range(0, len(lit))) or not rep or rep != set(range(min(rep), 256)) or lit | rep | eod != set(range(256)):
+            raise ValueError("run classes: %d literal, %d repeat, %d end" % (len(lit), len(rep), len(eod)))
         base = None
-        for m in re.finditer(r"(" + BYTE + r")\s*-\s*(\w+)", b):
-            if is_alias(m.group(2), v, b):
+        for m in re.finditer(r"(" + BYTE + r")\s*-\s*(?:usize::from\(\s*)?(\w+)", loop):
+            if is_alias(m.group(2), v, loop):
                 base = m
                 break
-        return str(int_value(lt.group(2))), str(int_value(ge.group(1))), str(int_value(base.group(1)))
+        return str(len(lit)), str(min(rep)), str(int_value(base.group(1)))
     g.attempt([("rle_lit_below", "N"), ("rle_rep_from", "N"), ("rle_rep_base", "N")], "enc.rs:run_length_decode", rle)
 
     def ptags():
@@ -1621,13 +1957,24 @@ def main():
     g.attempt([("predictor_tags", "list (N * N)")], "enc.rs:PredictorType::from_u8", ptags)
 
     def pngthr():
-        # smallest /Predictor value that selects the PNG un-prediction, and the TIFF value
+        # smallest /Predictor value that selects the PNG un-prediction, and the TIFF value: unpredict is RUN for
+        # /Predictor 0..40; a value selects PNG when what it executes (helpers expanded one level) un-filters rows
+        # (PredictorType::from_u8), TIFF when it does something else than hand the data back
         b = fn_body(enc, "unpredict")
-        loc = re.search(r"let\s+(\w+)\s*=\s*\w+\.predictor\s*;", b)
-        v = r"(?:%s|\w+\.predictor)" % (loc.group(1) if loc else r"\w+\.predictor")
-        m = re.search(r"if\s+" + v + r"\s*(>=|>)\s*(\d+)\s*\{", b)
-        t = re.search(r"else\s+if\s+" + v + r"\s*==\s*(\d+)\s*\{", b)
-        return "%d%%Z" % (int(m.group(2)) + (1 if m.group(1) == ">" else 0)), "%d%%Z" % int(t.group(1))
+        path = re.search(r"\b(\w+\.predictor)\b", b).group(1)
+        t = tabulate(b, path, enc, scopes=[b], domain=range(0, 41), is_expr=False, lenient=True)
+
+        def reach(o):
+            txt = " ".join(o.effects) + " " + (o.value.text if isinstance(o.value, rsx.Opaque) else repr(o.value))
+            for n, hb in callees(txt, enc):
+                txt += " " + hb
+            return txt
+        png = set(k for k, o in t.items() if "PredictorType::from_u8" in reach(o))
+        same = set(k for k, o in t.items() if k not in png and not o.effects and o.value == ("Ok", rsx.Opaque("decoded")))
+        tiff = set(t) - png - same
+        if not png or png != set(range(min(png), 41)) or len(tiff) != 1:
+            raise ValueError("predictor classes: png %r tiff %r" % (sorted(png)[:3], sorted(tiff)))
+        return "%d%%Z" % min(png), "%d%%Z" % min(tiff)
     g.attempt([("png_from", "Z"), ("tiff_pred", "Z")], "enc.rs:unpredict", pngthr)
 
     # further anchors are appended by gen/extract_*.py modules
